@@ -126,6 +126,9 @@ func H_C05_claim() {
 // H_C05_exit: every delegator with a positive reported balance can undelegate that full balance.
 func H_C05_exit() {
 	id := "C05.step.exit"
+	if !nd.Thorough() {
+		return // quick tier: the ideal-Q variant H_C05_exit_Q decides the exit obligation
+	}
 	ps := shapeActor("shape")
 	st := Build(ps, Opts{Rewards: true})
 	e := st.E
